@@ -46,7 +46,7 @@ var parseChain = map[string]bool{
 func init() {
 	register(&propertySpec{
 		ID: "C01", NeedCG: true, Quick: cfgAMD, Thorough: cfgAll,
-		Explanation: "Decides the structural conditions PAR2 repair rests on, for every path of the code: the only failure of reconstruction - a singular or under-determined system - is propagated as an error through every frame from the row reduction up to par2.Repair (ERRFLOW on the reconstruct chain); Repair returns nil only after every buffer it wrote matched the archive's 16k-hash and MD5, and a mismatch returns an error (WGUARD with error returns); writer and reader agree on the coder constructor, on its dimensions being the lengths of the very slices handed to it (the parity table is indexed by exponent), on slice cutting/padding and on the checksum functions (PAIR); every recovery block accepted as a parity shard has the slice size the coder's equal-length precondition needs (SHLEN); per-file damage flags are written to the record Repair reads, not to a copy (DEADST/LOCALCOPY); intact files are recognised with the full per-file predicate (SKIPOK); expected and found slice locations accumulate, so repeated slice contents do not consume recovery blocks (ACCUM); the coder workers partition the slice correctly for every goroutine count (RACE); Repair declares success only through Decoder.Repair (ENTRY-SEQ); the file writer replaces whole files (EFF write-impl).",
+		Explanation: "Decides the structural conditions PAR2 repair rests on, for every path of the code: the only failure of reconstruction - a singular or under-determined system - is propagated as an error through every frame from the row reduction up to par2.Repair (ERRFLOW on the reconstruct chain); Repair returns nil only after every buffer it wrote matched the archive's 16k-hash and MD5, and a mismatch returns an error (WGUARD with error returns); writer and reader agree on the coder constructor, on its dimensions being the lengths of the very slices handed to it (the parity table is indexed by exponent), on slice cutting/padding and on the checksum functions (PAIR); every recovery block accepted as a parity shard has the slice size the coder's equal-length precondition needs (SHLEN); per-file damage flags are written to the record Repair reads, not to a copy (DEADST/LOCALCOPY); intact files are recognised with the full per-file predicate (SKIPOK); expected and found slice locations accumulate, so repeated slice contents do not consume recovery blocks (ACCUM); the coder workers partition the slice correctly for every goroutine count (RACE); Repair declares success only through Decoder.Repair (ENTRY-SEQ); the file writer replaces whole files (EFF write-impl). Round-3 additions: after a data file has been read, no return skips the slice search or the two file-level checks (MUSTPASS); elementary row operations cover the whole row of the matrix they touch, also of the wider augmented matrix (ROWCOVER); every surviving recovery block is a candidate row - a nil shard is skipped, it does not end the scan (FILTER).",
 		NotDecided:  []string{"that Repair succeeds whenever k blocks survive (matrix algebra, slice search at every offset)", "volume discovery beyond what C06 decides", "the values of the reconstructed bytes"},
 		Run: func(w *World, r *Report, tier string) {
 			guard(r, "ERRFLOW", func() {
@@ -69,7 +69,7 @@ func init() {
 
 	register(&propertySpec{
 		ID: "C02", Fixtures: []string{"EFF"}, NeedCG: true, Quick: cfgAMD, Thorough: cfgAll,
-		Explanation: "Decides, for every path of the code (hence every archive state and both double-check settings): which code may mutate the filesystem at all and that the one primitive replaces whole files (EFF E1-E5), that every byte buffer Repair writes is the very buffer whose 16k-hash and MD5 were just compared with the hashes of the archive entry the target path was derived from (WGUARD), that a path is reported iff its write returned nil and reported paths survive to the caller also when Repair fails later (REPORT, REPORT-PROP), that writes are control-dependent on the file having been found damaged (SKIPOK), that Create's output names do not depend on the input names (CREATE-PATHS), and that no function reachable from Verify contains or reaches a write. These are necessary conditions: breaking any of them breaks the property.",
+		Explanation: "Decides, for every path of the code (hence every archive state and both double-check settings): which code may mutate the filesystem at all and that the one primitive replaces whole files (EFF E1-E5), that every byte buffer Repair writes is the very buffer whose 16k-hash and MD5 were just compared with the hashes of the archive entry the target path was derived from (WGUARD), that a path is reported iff its write returned nil and reported paths survive to the caller also when Repair fails later (REPORT, REPORT-PROP), that writes are control-dependent on the file having been found damaged (SKIPOK), that Create's output names do not depend on the input names (CREATE-PATHS), and that no function reachable from Verify contains or reaches a write. These are necessary conditions: breaking any of them breaks the property. The protected name a reader stores or checks is the decoded wire name, unaltered (NAMEFID).",
 		NotDecided:  []string{"byte equality with the original beyond MD5/16k-hash equality", "the effect of a torn ioutil.WriteFile", "correctness of the reconstruction arithmetic"},
 		Run: func(w *World, r *Report, tier string) {
 			guard(r, "EFF", func() { ruleEFF(w, r, effOpts{e1: true, e2: true, e3: true, e4: true, e5: true, impl: true}) })
@@ -84,7 +84,7 @@ func init() {
 
 	register(&propertySpec{
 		ID: "C03", NeedCG: true, Quick: cfgAMD, Thorough: cfgAll,
-		Explanation: "Decides what the PAR2 verdict is computed from: the verdict predicates are evaluated exhaustively over their finite comparison domain against the table the property states, and the counters are incremented exactly on the nil / non-nil edge of the element they range over, the wrong-file counter exactly under !ok (DECIDE); a slice is recorded as found only for a non-empty CRC32+MD5 lookup of that very slice, packets are accepted only with their MD5 verified over (set id, type, body), packets of other sets are skipped and volume files are read with the decoder's set id (GATE); every per-file and per-slice flag computed while loading can reach the verdict, and is written to the record, not to a local copy of it (DEADST/LOCALCOPY); the expected-location map and the per-slice location sets accumulate - every place a slice content is expected, and every place it is found, is recorded (ACCUM); Verify's result is built from the decoder's counts after both load phases (ENTRY-SEQ).",
+		Explanation: "Decides what the PAR2 verdict is computed from: the verdict predicates are evaluated exhaustively over their finite comparison domain against the table the property states, and the counters are incremented exactly on the nil / non-nil edge of the element they range over, the wrong-file counter exactly under !ok (DECIDE); a slice is recorded as found only for a non-empty CRC32+MD5 lookup of that very slice, packets are accepted only with their MD5 verified over (set id, type, body), packets of other sets are skipped and volume files are read with the decoder's set id (GATE); every per-file and per-slice flag computed while loading can reach the verdict, and is written to the record, not to a local copy of it (DEADST/LOCALCOPY); the expected-location map and the per-slice location sets accumulate - every place a slice content is expected, and every place it is found, is recorded (ACCUM); Verify's result is built from the decoder's counts after both load phases (ENTRY-SEQ). The packet MD5 is computed over set id, type and the whole body (CONST hash orders); no return of the per-file loader skips the whole-file hash or length check (MUSTPASS); the directory is asked for exactly '<base>.' + ext with base cut by length (GLOBCALL).",
 		NotDecided:  []string{"completeness of the slice search (rolling CRC, every offset) - C16", "the count of distinct recovery blocks beyond acceptance"},
 		Run: func(w *World, r *Report, tier string) {
 			guard(r, "DECIDE", func() {
@@ -134,7 +134,7 @@ func init() {
 
 	register(&propertySpec{
 		ID: "C06", Fixtures: []string{"GLOB", "DEEPEQ"}, NeedCG: true, Quick: cfgAMD, Thorough: cfgAll,
-		Explanation: "Decides the reader-side structure that layout independence needs: volume discovery lists the directory with an error-returning API and matches prefix and suffix literally, with no further filter, so no base name is interpreted as a pattern and every '<base>.*.par2' beside the index file is returned (GLOB); a file of the set without a main packet cannot be dereferenced (NILF); packets of other sets and of unknown types are skipped without ending the file or storing anything (GATE G2/G3); the exponent-indexed parity table grows without narrow-type wrap and the coder has a row for every index of it (WIRE S2/S5, PAIR); comparisons of duplicated packets compare like with like and the sparse parity table is never compared as a whole (DEEPEQ); a header-only packet is accepted (CONST length bound).",
+		Explanation: "Decides the reader-side structure that layout independence needs: volume discovery lists the directory with an error-returning API and matches prefix and suffix literally, with no further filter, so no base name is interpreted as a pattern and every '<base>.*.par2' beside the index file is returned (GLOB); a file of the set without a main packet cannot be dereferenced (NILF); packets of other sets and of unknown types are skipped without ending the file or storing anything (GATE G2/G3); the exponent-indexed parity table grows without narrow-type wrap and the coder has a row for every index of it (WIRE S2/S5, PAIR); comparisons of duplicated packets compare like with like and the sparse parity table is never compared as a whole (DEEPEQ); a header-only packet is accepted (CONST length bound). Volume discovery asks for exactly '<base>.' + ext (GLOBCALL); the handling of one packet type never branches on state written while handling another type, so packet order cannot matter (ORDERINDEP); the coder considers every surviving recovery block, also after a gap in the exponents (FILTER).",
 		NotDecided:  []string{"insensitivity to packet order and duplication as behaviour"},
 		Run: func(w *World, r *Report, tier string) {
 			guard(r, "GLOB", func() { ruleGLOB(w, r, globAll) })
@@ -152,7 +152,7 @@ func init() {
 
 	register(&propertySpec{
 		ID: "C07", NeedCG: true, Quick: cfgAMD, Thorough: cfgAll,
-		Explanation: "Decides the ownership and error structure of the coder: GenerateParity never writes its data shards; ReconstructData never writes parity and writes data only at depth 1 (nil rows replaced), never at byte depth (OWN, bottom-up write summaries incl. the assembly kernels and the unsafe casts); the dedicated not-enough-parity type is returned exactly on the fewer-inputs-than-data-shards edge and is the type the PAR2 classifier asserts (PAIR-ERRTYPE); a singular system is reported as an error in every frame (ERRFLOW on the coder chain); row and element copies in the matrix code have provably equal lengths (COPYLEN); the workers' ranges are disjoint, word-aligned, cover the shard and are joined (RACE).",
+		Explanation: "Decides the ownership and error structure of the coder: GenerateParity never writes its data shards; ReconstructData never writes parity and writes data only at depth 1 (nil rows replaced), never at byte depth (OWN, bottom-up write summaries incl. the assembly kernels and the unsafe casts); the dedicated not-enough-parity type is returned exactly on the fewer-inputs-than-data-shards edge and is the type the PAR2 classifier asserts (PAIR-ERRTYPE); a singular system is reported as an error in every frame (ERRFLOW on the coder chain); row and element copies in the matrix code have provably equal lengths (COPYLEN); the workers' ranges are disjoint, word-aligned, cover the shard and are joined (RACE). Row operations cover the full row of the matrix they touch (ROWCOVER); the parity-row selection is a filter over all rows (FILTER).",
 		NotDecided:  []string{"MDS reconstruction: that a nil error means the restored shards equal the originals", "row swaps and elimination as values"},
 		Run: func(w *World, r *Report, tier string) {
 			guard(r, "OWN", func() { ruleOWN(w, r, ownOpts{coder: true}) })
@@ -167,7 +167,7 @@ func init() {
 
 	register(&propertySpec{
 		ID: "C08", NeedCG: true, Quick: cfgAMD32, Thorough: cfgAll,
-		Explanation: "Decides the constants and index arithmetic the field identities depend on: tables are built by reduction modulo 0x1100B, every log-domain modulus is 65535 and equals the table lengths, the tables are filled over their whole range (CONST field, TABLEFILL); every index into a table lies inside it and no intermediate value on the way to an index exceeds its type - zero operands leave before any log lookup, logT*p is formed in 64 bits (RANGE, per GOARCH). Each is necessary: % 65536, a missing zero guard or a 32-bit product all break the stated identities.",
+		Explanation: "Decides the constants and index arithmetic the field identities depend on: tables are built by reduction modulo 0x1100B, every log-domain modulus is 65535 and equals the table lengths, the tables are filled over their whole range (CONST field, TABLEFILL); every index into a table lies inside it and no intermediate value on the way to an index exceeds its type - zero operands leave before any log lookup, logT*p is formed in 64 bits (RANGE, per GOARCH). Each is necessary: % 65536, a missing zero guard or a 32-bit product all break the stated identities. No value in gf2/gf2p16 passes through a floating-point type or package math (INTONLY).",
 		NotDecided:  []string{"the products themselves over 2^32 operand pairs", "gf2.Poly64 multiplication and division as values"},
 		Run: func(w *World, r *Report, tier string) {
 			guard(r, "CONST", func() { ruleCONST(w, r, constOpts{field: true}) })
@@ -246,7 +246,7 @@ func init() {
 
 	register(&propertySpec{
 		ID: "C13", Fixtures: []string{"BUFNEXT"}, NeedCG: true, Quick: cfgAMD32, Thorough: cfgAll,
-		Explanation: "Decides necessary conditions for 'corruption never crashes or misleads': every integer that comes from an archive - including the packet length, which no checksum covers - is bounded before it is converted, used as a size, as a slice bound or as a divisor, and bytes from Buffer.Next are length-checked before indexing (WIRE, per GOARCH); nil-able packet pointers are checked before use (NILF); allocation lengths that are differences are shown non-negative (MKLEN); table lookups on header fields stay in range (RANGE); everything accepted lies behind the packet MD5 / control hash / set id gates, so bit flips stop there (GATE); parse errors are propagated, never turned into results (ERRFLOW on the parsing functions).",
+		Explanation: "Decides necessary conditions for 'corruption never crashes or misleads': every integer that comes from an archive - including the packet length, which no checksum covers - is bounded before it is converted, used as a size, as a slice bound or as a divisor, and bytes from Buffer.Next are length-checked before indexing (WIRE, per GOARCH); nil-able packet pointers are checked before use (NILF); allocation lengths that are differences are shown non-negative (MKLEN); table lookups on header fields stay in range (RANGE); everything accepted lies behind the packet MD5 / control hash / set id gates, so bit flips stop there (GATE); parse errors are propagated, never turned into results (ERRFLOW on the parsing functions). Nil checks that detect a missing packet can actually fire (NILLIVE); a slice collected by appends is indexed with a constant only under a lower bound on its length (NONEMPTY); the coder has a row for every index of the exponent-indexed parity table (PAIR decoder dims).",
 		NotDecided:  []string{"full panic freedom (the compiler leaves 60+ bounds checks unproven in the readers; relational reasoning)", "termination of every loop", "crash prefixes of Create as histories"},
 		Run: func(w *World, r *Report, tier string) {
 			guard(r, "WIRE", func() { ruleWIRE(w, r) })
@@ -263,11 +263,13 @@ func init() {
 
 	register(&propertySpec{
 		ID: "C14", Fixtures: []string{"GLOBALS", "EFF"}, NeedCG: true, Quick: cfgAMD, Thorough: cfgAll,
-		Explanation: "Decides that the only state between operations is the directory and that operations treat it as the property requires: no package-level variable is written after initialisation (GLOBALS); Verify reaches no write (EFF E3); Repair rewrites a file only if the full per-file predicate - evaluated before reconstruction overwrites the slice records, with the same index as the entry - found it damaged, the very predicate Verify's verdict uses (SKIPOK, DECIDE counts); only buffers that matched the entry's hashes are written, each to the entry's own name, and reported iff written (WGUARD, REPORT).",
+		Explanation: "Decides that the only state between operations is the directory and that operations treat it as the property requires: no package-level variable is written after initialisation (GLOBALS); Verify reaches no write (EFF E3); Repair rewrites a file only if the full per-file predicate - evaluated before reconstruction overwrites the slice records, with the same index as the entry - found it damaged, the very predicate Verify's verdict uses (SKIPOK, DECIDE counts); only buffers that matched the entry's hashes are written, each to the entry's own name, and reported iff written (WGUARD, REPORT). The writer primitive replaces whole files (EFF write-impl); damage flags are stored to the record, not to a copy (DEADST/LOCALCOPY); decoder state is marked restored only after the write succeeded (POSTWRITE).",
 		NotDecided:  []string{"closure of the reachable history graph", "that every location of a repeated slice content is credited (value level)"},
 		Run: func(w *World, r *Report, tier string) {
 			guard(r, "GLOBALS", func() { ruleGLOBALS(w, r, nil) })
-			guard(r, "EFF", func() { ruleEFF(w, r, effOpts{e3: true}) })
+			guard(r, "EFF", func() { ruleEFF(w, r, effOpts{e1: true, e3: true, impl: true}) })
+			guard(r, "DEADST", func() { ruleDEADST(w, r) })
+			guard(r, "POSTWRITE", func() { rulePOSTWRITE(w, r) })
 			guard(r, "SKIPOK", func() { ruleSKIPOK(w, r) })
 			guard(r, "WGUARD", func() { ruleWGUARD(w, r, false) })
 			guard(r, "REPORT", func() { ruleREPORT(w, r) })
@@ -281,35 +283,39 @@ func init() {
 
 	register(&propertySpec{
 		ID: "C15", Fixtures: []string{"EFF"}, NeedCG: true, Quick: cfgAMD, Thorough: cfgAll,
-		Explanation: "Decides that every flow from an archive-declared name to a filesystem call passes the check-and-join: the PAR2 reader accepts a description packet only after checkFilename accepted the very name it carries; checkFilename tests the cleaned name, the raw name reaching only IsAbs and Clean; getFilePath joins Dir(index path) with the unmodified validated field (PAR1: only after Base(name)==name); no decoder file operation takes a path derived from a name field except through getFilePath; PAR2 Create stores only Rel(basePath, .) results that do not start with a dot (SANIT); no other filesystem access exists (EFF).",
+		Explanation: "Decides that every flow from an archive-declared name to a filesystem call passes the check-and-join: the PAR2 reader accepts a description packet only after checkFilename accepted the very name it carries; checkFilename tests the cleaned name, the raw name reaching only IsAbs and Clean; getFilePath joins Dir(index path) with the unmodified validated field (PAR1: only after Base(name)==name); no decoder file operation takes a path derived from a name field except through getFilePath; PAR2 Create stores only Rel(basePath, .) results that do not start with a dot (SANIT); no other filesystem access exists (EFF). Names are not altered between the wire and the path (NAMEFID) and no I/O happens on a bare set-relative name (ANCHOR).",
 		NotDecided:  []string{"that the predicates reject exactly the traversing spellings on every platform (e.g. backslashes on Windows)"},
 		Run: func(w *World, r *Report, tier string) {
 			guard(r, "SANIT", func() { ruleSANIT(w, r) })
 			guard(r, "NAMEFID", func() { ruleNAMEFID(w, r) })
+			guard(r, "ANCHOR", func() { ruleANCHOR(w, r, "", 6) })
 			guard(r, "EFF", func() { ruleEFF(w, r, effOpts{e1: true, e2: true}) })
 		},
 	})
 
 	register(&propertySpec{
 		ID: "C17", NeedCG: true, Quick: cfgAMD, Thorough: cfgAll,
-		Explanation: "Decides that Create's output depends only on its inputs: no time, random or process-identity call on Create's call-graph closure; every range over a map has an order-insensitive body or ranges over a field that is never set there; the recovery set is sorted by file id before it is stored; the names hashed into file ids derive from Rel(Dir(Abs(parPath)), Abs(p)) for every input (PAR1: Base(p)) (DETERM); the output names depend only on the index path (CREATE-PATHS); independence from the goroutine count by the worker partition (RACE).",
+		Explanation: "Decides that Create's output depends only on its inputs: no time, random or process-identity call on Create's call-graph closure; every range over a map has an order-insensitive body or ranges over a field that is never set there; the recovery set is sorted by file id before it is stored; the names hashed into file ids derive from Rel(Dir(Abs(parPath)), Abs(p)) for every input (PAR1: Base(p)) (DETERM); the output names depend only on the index path (CREATE-PATHS); independence from the goroutine count by the worker partition (RACE). No I/O is done on a bare set-relative name, which would make the result depend on the working directory (ANCHOR); the writer primitive truncates, so outputs do not depend on earlier runs (EFF write-impl).",
 		NotDecided:  []string{"byte equality of two runs as such (follows only together with the purity of the kernels, which is value level)"},
 		Run: func(w *World, r *Report, tier string) {
 			guard(r, "DETERM", func() { ruleDETERM(w, r) })
 			guard(r, "CREATE-PATHS", func() { ruleCREATEPATHS(w, r) })
+			guard(r, "ANCHOR", func() { ruleANCHOR(w, r, "Encoder)", 3) })
+			guard(r, "EFF", func() { ruleEFF(w, r, effOpts{e1: true, impl: true}) })
 			guard(r, "RACE", func() { ruleRACE(w, r) })
 		},
 	})
 
 	register(&propertySpec{
 		ID: "C18", Fixtures: []string{"GLOB", "EFF"}, NeedCG: true, Quick: cfgAMD, Thorough: cfgAll,
-		Explanation: "Decides error discipline over every call site rather than sampled fault indices: every error produced by a call in par1, par2 and cmd/par (where all I/O happens) reaches, on every path on which it may be non-nil, a return in error position, a panic or a no-return call; only os.IsNotExist turns a read failure into 'damage' (ERRFLOW, with per-return-site splitting of the immediately-invoked literals). No success is reported for a write that failed (REPORT), nothing but the file being written is touched and the write primitive replaces the whole file (EFF), and the directory lister uses an error-returning API and matches names literally (GLOB).",
+		Explanation: "Decides error discipline over every call site rather than sampled fault indices: every error produced by a call in par1, par2 and cmd/par (where all I/O happens) reaches, on every path on which it may be non-nil, a return in error position, a panic or a no-return call; only os.IsNotExist turns a read failure into 'damage' (ERRFLOW, with per-return-site splitting of the immediately-invoked literals). No success is reported for a write that failed (REPORT), nothing but the file being written is touched and the write primitive replaces the whole file (EFF), and the directory lister uses an error-returning API and matches names literally (GLOB). Decoder state is marked restored only on the success edge of the write (POSTWRITE).",
 		NotDecided:  []string{"that a rerun after the fault completes as if the fault had never occurred", "torn writes", "faults inside the Go runtime or the OS"},
 		Run: func(w *World, r *Report, tier string) {
 			guard(r, "ERRFLOW", func() {
 				ruleERRFLOW(w, r, errflowScope{pkgs: []string{"par1", "par2", "cmd/par"}}, 110)
 			})
 			guard(r, "REPORT", func() { ruleREPORT(w, r) })
+			guard(r, "POSTWRITE", func() { rulePOSTWRITE(w, r) })
 			guard(r, "EFF", func() { ruleEFF(w, r, effOpts{e1: true, e2: true}) })
 			guard(r, "GLOB", func() { ruleGLOB(w, r, globOpts{pattern: true, lists: true}) })
 		},
@@ -336,7 +342,7 @@ func init() {
 
 	register(&propertySpec{
 		ID: "C20", Fixtures: []string{"GLOB"}, NeedCG: true, Quick: cfgAMD, Thorough: cfgAll,
-		Explanation: "Decides the exit-status mapping of cmd/par.main on its control-flow graph with no-return inference and a small abstract interpreter for the helpers: after each library call no path with a non-nil error reaches status 0 and every status there is a known non-zero constant; verify's success side exits with processRepairChecker(result counts); the repair error of each format reaches that format's classifier before any exit and the classifier's true edge exits 2; formats are selected by path.Ext; usage errors exit 3; main cannot fall off its end (CLI 1-6). processRepairChecker and the verdict predicates are evaluated exhaustively over their finite comparison domain against the table in the property (DECIDE). The type the PAR2 classifier asserts is exactly the type ReconstructData returns on the not-enough-parity edge (PAIR-ERRTYPE). Volume discovery returns every matching directory entry, so 'possible' is judged on all recovery files present (GLOB). The library operations declare success only through the decoder (ENTRY-SEQ) and relative data paths are made absolute against the current directory with filepath.Abs (DETERM D-d).",
+		Explanation: "Decides the exit-status mapping of cmd/par.main on its control-flow graph with no-return inference and a small abstract interpreter for the helpers: after each library call no path with a non-nil error reaches status 0 and every status there is a known non-zero constant; verify's success side exits with processRepairChecker(result counts); the repair error of each format reaches that format's classifier before any exit and the classifier's true edge exits 2; formats are selected by path.Ext; usage errors exit 3; main cannot fall off its end (CLI 1-6). processRepairChecker and the verdict predicates are evaluated exhaustively over their finite comparison domain against the table in the property (DECIDE). The type the PAR2 classifier asserts is exactly the type ReconstructData returns on the not-enough-parity edge (PAIR-ERRTYPE). Volume discovery returns every matching directory entry, so 'possible' is judged on all recovery files present (GLOB). The library operations declare success only through the decoder (ENTRY-SEQ) and relative data paths are made absolute against the current directory with filepath.Abs (DETERM D-d). The PAR1 double check verifies shards completed by Reconstruct, parity included (PAIR reconstruct-then-verify).",
 		NotDecided:  []string{"which library error arises in which archive state (e.g. PAR2 'no parity shards' is an unclassified error)", "flag parsing semantics of package flag", "resolution of relative paths by the OS"},
 		Run: func(w *World, r *Report, tier string) {
 			guard(r, "CLI", func() { ruleCLI(w, r) })
@@ -344,7 +350,7 @@ func init() {
 				ruleDECIDEChecker(w, r)
 				ruleDECIDEPredicates(w, r, map[string]bool{"par1": true, "par2": true})
 			})
-			guard(r, "PAIR", func() { rulePAIRERRTYPE(w, r); ruleCLASSIFY(w, r) })
+			guard(r, "PAIR", func() { rulePAIRERRTYPE(w, r); ruleCLASSIFY(w, r); pairPar1Reconstruct(w, r) })
 			guard(r, "GLOB", func() { ruleGLOB(w, r, globOpts{complete: true}) })
 			guard(r, "ENTRY-SEQ", func() { ruleENTRYSEQ(w, r, "par1", "par2") })
 			guard(r, "DETERM", func() { r.rule("DETERM", ruleDETERMText); determPathsPar2(w, r, false) })
